@@ -7,6 +7,7 @@ use serde_json::{json, Value};
 pub mod auth;
 pub mod cjson;
 pub mod hashes;
+pub mod html;
 pub mod ids;
 pub mod pushcond;
 pub mod pushops;
@@ -40,6 +41,7 @@ pub fn run(name: &str, tier: &str) -> Option<Value> {
         "cjson" => cjson::run(tier).to_json(),
         "auth" => auth::run(tier).to_json(),
         "hashes" => hashes::run(tier).to_json(),
+        "html" => html::run(tier).to_json(),
         "ids" => ids::run(tier).to_json(),
         "xmatrix" => xmatrix::run(tier).to_json(),
         "sign" => sign::run(tier).to_json(),
